@@ -1179,6 +1179,24 @@ impl ElementRaw {
         Ok(())
     }
 
+    // remove all content items of this element; sub elements (which can occur next to the character data in mixed content)
+    // become invalid and the model no longer lists their paths and references
+    pub(crate) fn remove_content(&mut self, model: &AutosarModel) -> Result<(), AutosarDataError> {
+        if self.content.iter().any(|item| matches!(item, ElementContent::Element(_))) {
+            let path = self.path_unchecked()?;
+            for item in &self.content {
+                if let ElementContent::Element(sub_element) = item {
+                    sub_element
+                        .0
+                        .write()
+                        .remove_internal(sub_element.downgrade(), model, Cow::from(path.as_str()));
+                }
+            }
+        }
+        self.content.clear();
+        Ok(())
+    }
+
     // remove all of the content of an element
     pub(crate) fn remove_internal(&mut self, self_weak: WeakElement, model: &AutosarModel, mut path: Cow<str>) {
         if self.is_identifiable() {
